@@ -20,8 +20,8 @@ def observe(history, reader=False, timer=False, dumps="all"):
     return {"steps": steps, "final": final, "notes": notes}
 
 
-def observe_model(history, dumps="all"):
-    res, final = model.run_model(history, dumps=dumps)
+def observe_model(history, dumps="all", registry=False):
+    res, final = model.run_model(history, dumps=dumps, driver=model.REG_DRIVER if registry else None)
     steps = []
     for op, ev, d in res:
         if op["op"] == "dump":
